@@ -1,8 +1,11 @@
 /-
-C04, second part — a message sealed by the builder validates (rests on C03's round trip).
+C04 (continued) — sealed messages verify.  Separate from `Props/C04.lean` because it rests on the
+builder round trip of C03.
+Property theorems only (statements are fixed; helper lemmas live in `Lemmas/Seal.lean`).
 -/
 import StunVerif.Spec.Builder
 import StunVerif.Lemmas.Integrity
+import StunVerif.Lemmas.Seal
 import StunVerif.Props.C03
 import StunVerif.Props.C04
 namespace StunVerif.C04
@@ -15,6 +18,23 @@ theorem seal_validates (H : Hashes) (hH : Spec.HashesOk H) (c : Creds) (b : Buil
     (hsealed : tyMI ∈ b.types ∨ tyMI256 ∈ b.types) :
     ∃ m, msgFromBytes b.build = .ok m ∧
       m.validateIntegrity H c = .ok (if tyMI256 ∈ b.types then .sha256 else .sha1) := by
-  sorry
+  have hreach := reachWith_reach H c b hr
+  have hok := reach_ok H hH b hreach
+  obtain ⟨m, hp, _, _, hall, _⟩ := C03.roundtrip H hH b hreach hs
+  refine ⟨m, hp, ?_⟩
+  obtain ⟨hm, h20, ht, hc, hl, hwalk⟩ := (msgFromBytes_ok_iff b.build m).mp hp
+  obtain ⟨ts, hw⟩ := walk_wellFormed b.build h20 ht hc hl hwalk
+  have hts : ts.map Spec.Tlv.raw = b.attrs.map BAttr.asRaw := by
+    rw [← hall, hm]; exact (wellFormedAs_allAttrs b.build ts hw).symm
+  have htypes : ts.map (·.ty) = b.types := by
+    rw [reach_types H b hreach]
+    have := congrArg (List.map (·.ty)) hts
+    simp only [List.map_map] at this
+    rw [show (fun x : Spec.Tlv => x.ty) = (fun x : RawAttr => x.ty) ∘ Spec.Tlv.raw from rfl, this]
+    apply List.map_congr_left
+    intro a _
+    exact asRaw_ty a
+  rw [validate_spec H b.build m ts c hp hw]
+  exact sealed_verdict H hH c b hok (reachWith_sealed H hH c b hr hs) ts hw hts htypes hsealed
 
 end StunVerif.C04
